@@ -107,6 +107,13 @@ class FastaIndex:
         if self.check_for_index_files():
             self.load_index()
             self.load_assembly()
+            if [s.name for s in self.assembly.scaffolds] != list(self.index):
+                # AGP cannot store every sequence that a FASTA file can hold
+                # (e.g. sequences with no residues, or with names beginning
+                # with "#"), so build the assembly from the FASTA file itself.
+                self.index, self.assembly = index_fasta_file(
+                    self.fasta_file, self.buffer_size
+                )
         else:
             self.run_indexing()
 
